@@ -40,6 +40,7 @@ import (
 	"github.com/lestrrat-go/jwx/v2/jwk"
 	"github.com/lestrrat-go/jwx/v2/jws"
 	"github.com/lestrrat-go/jwx/v2/jwt"
+	"github.com/lestrrat-go/jwx/v2/x25519"
 	"github.com/nuts-foundation/nuts-node/core"
 	nutsCrypto "github.com/nuts-foundation/nuts-node/crypto"
 	"github.com/nuts-foundation/nuts-node/crypto/dpop"
@@ -940,6 +941,131 @@ func TestVerifC17(t *testing.T) {
 					return strconv.FormatBool(nutsJwx.AlgorithmFitsKey(jwa.SignatureAlgorithm(alg), sh.key))
 				})
 				out.emit(map[string]interface{}{"op": "algfits", "name": sh.name, "alg": alg, "shape": sh.shape}, res)
+			}
+		}
+	}
+
+	// ---------------- clause (e), INSIDE the embedded jwk header: which JWK objects dpop.jwkIsPrivateKey (Raw probes) and the type
+	// switch of dag.parseSignatureParams refuse. The op carries what decides the jwx key type (kty, crv, `d` present); the
+	// model computes the type, the private test over the REGENERATED probe sequence / rejected interfaces, and the outcome.
+	{
+		type vJk struct {
+			name     string
+			raw      json.RawMessage
+			kty, crv string
+			hasD     bool
+			signer   *vKey // signs the token (the holder of the embedded key where that is possible)
+		}
+		describe := func(name string, raw []byte, signer *vKey) vJk {
+			var m map[string]interface{}
+			_ = json.Unmarshal(raw, &m)
+			kty, _ := m["kty"].(string)
+			crv, _ := m["crv"].(string)
+			_, hasD := m["d"]
+			return vJk{name: name, raw: raw, kty: kty, crv: crv, hasD: hasD, signer: signer}
+		}
+		fromRaw := func(name string, key interface{}, signer *vKey) vJk {
+			j, err := jwk.FromRaw(key)
+			if err != nil {
+				t.Fatal(err)
+			}
+			return describe(name, vJSON(j), signer)
+		}
+		xPub, xPriv, err := x25519.GenerateKey(crand.Reader)
+		if err != nil {
+			t.Fatal(err)
+		}
+		var jks []vJk
+		for _, k := range signers {
+			jks = append(jks, fromRaw(k.name+"-public", k.pub, k), fromRaw(k.name+"-PRIVATE", k.priv, k))
+		}
+		jks = append(jks, fromRaw("x25519-public", xPub, signers[1]), fromRaw("x25519-PRIVATE", xPriv, signers[1]),
+			fromRaw("oct", []byte("0123456789abcdef0123456789abcdef"), signers[0]),
+			describe("unknown-kty", []byte(`{"kty":"XYZ","x":"AA"}`), signers[0]))
+		// a public key that merely carries other private-looking members (not `d`)
+		{
+			var m map[string]interface{}
+			_ = json.Unmarshal(fromRaw("", signers[0].pub, nil).raw, &m)
+			m["dp"], m["k"] = "AQAB", "c2VjcmV0"
+			jks = append(jks, describe("alice-public-with-dp-k-members", vJSON(m), signers[0]))
+		}
+		for _, jk := range jks {
+			jk := jk
+			jv := func(verd map[string]interface{}) map[string]interface{} {
+				verd["jkty"], verd["jcrv"], verd["jhasd"] = jk.kty, jk.crv, jk.hasD
+				return verd
+			}
+			// --- dpop.Parse
+			if want("dpopj", jk.name) {
+				dclaims := map[string]interface{}{"htm": "POST", "htu": "https://server.example/token", "jti": uuid.NewString(), "iat": now.Unix()}
+				sg := &vSig{hdr: map[string]interface{}{"typ": "dpop+jwt", "alg": string(jk.signer.alg), "jwk": jk.raw}, signAlg: jk.signer.alg, signKey: jk.signer.priv}
+				tok := vCompact(sg, vJSON(dclaims))
+				info, msg := vAnalyse(tok)
+				verd := jv(map[string]interface{}{})
+				if info.Parses && len(info.Sigs) == 1 && msg.Signatures()[0].ProtectedHeaders().JWK() != nil {
+					h := msg.Signatures()[0].ProtectedHeaders()
+					tk, err := jwt.ParseString(tok, jwt.WithKey(h.Algorithm(), h.JWK()))
+					verd["verified"] = err == nil
+					verd["fits"] = VAlgFitsKey(string(h.Algorithm()), h.JWK())
+					if err == nil {
+						htu, ok1 := tk.Get("htu")
+						htm, ok2 := tk.Get("htm")
+						verd["claimsok"] = !tk.IssuedAt().IsZero() && ok1 && htu != "" && ok2 && htm != "" && tk.JwtID() != "" && len(tk.JwtID()) <= 256
+					}
+				}
+				res := vRecover(func() string {
+					_, err := dpop.Parse(tok)
+					test := "passed"
+					if !info.Parses {
+						test = "noparse"
+					} else if err != nil && strings.Contains(err.Error(), "invalid jwk header") {
+						test = "refused"
+					}
+					return test + " " + vOK(err)
+				})
+				out.emit(vConsumerOp{Op: "consume", C: "dpopj", Name: jk.name, Class: "embedded-jwk-object", HAlg: string(jk.signer.alg), By: "signer", Info: info, V: verd}, res)
+			}
+			// --- dag.ParseTransaction + verifier (EdDSA is not an allowed transaction algorithm: those tokens are signed by alice)
+			if want("dagtxj", jk.name) {
+				sk := jk.signer
+				if sk.alg == jwa.EdDSA {
+					sk = signers[0]
+				}
+				hdr := map[string]interface{}{"alg": string(sk.alg), "cty": "application/did+json", "crit": []string{"sigt", "ver", "prevs", "lc"}, "sigt": now.Unix(), "ver": 2,
+					"prevs": []string{hash.SHA256Sum([]byte("prev")).String()}, "lc": 1, "jwk": jk.raw}
+				tok := vCompact(&vSig{hdr: hdr, signAlg: sk.alg, signKey: sk.priv}, []byte(hash.SHA256Sum([]byte("payload")).String()))
+				info, msg := vAnalyse(tok)
+				verd := jv(map[string]interface{}{"framing": vDagFramingOK([]byte(tok))})
+				if info.Parses && len(info.Sigs) == 1 {
+					h := msg.Signatures()[0].ProtectedHeaders()
+					verd["otherok"] = vDagOtherHeadersOK(h, msg)
+					var key interface{}
+					if h.JWK() != nil {
+						var raw interface{}
+						if err := h.JWK().Raw(&raw); err == nil {
+							key = raw
+						}
+					}
+					verd["keyfound"] = key != nil
+					if key != nil {
+						verd["verified"] = vRecover(func() string { _, err := jws.Verify([]byte(tok), jws.WithKey(h.Algorithm(), key)); return vOK(err) }) == "accept"
+						verd["fits"] = VAlgFitsKey(string(h.Algorithm()), key)
+					}
+				}
+				res := vRecover(func() string {
+					tx, err := dag.ParseTransaction([]byte(tok))
+					test := "passed"
+					if !info.Parses {
+						test = "noparse"
+					} else if err != nil && strings.Contains(err.Error(), "must not hold a private or symmetric key") {
+						test = "refused"
+					}
+					if err != nil {
+						return test + " reject"
+					}
+					return test + " " + vOK(dagVerifier(nil, tx))
+				})
+				out.emit(vConsumerOp{Op: "consume", C: "dagtxj", Name: jk.name, Class: "embedded-jwk-object", HAlg: string(sk.alg), By: "signer", Info: info, V: verd}, res)
 			}
 		}
 	}
